@@ -926,6 +926,9 @@ def hQuiescent (inp out : Json) : Except String Findings := do
   let fs := spec fs "C02.fixpoint" (Spec.C02.fixpoint v.eds v.nodes v.pods)
   let fs := spec fs "C02.live-template-active" (v.activeHash == v.eds.templateHash)
   let fs := spec fs "C14.quiescent" (Spec.C02.statusQuiescent v.eds v.nodes v.pods)
+  -- once the rollout is over no daemon pod carries the canary label any more: the canary replica set
+  -- became active (label removed by its first active syncs) or failed (its pods were replaced)
+  let fs := spec fs "C04.label-off-at-quiescence" ((Spec.C02.ownPods v.eds v.pods).all (fun p => !p.canaryLabel))
   return fs
 
 /-- C11: the faulted run, after recovery, reaches the same pods and status as the failure-free run
